@@ -59,6 +59,10 @@ func checkProgram(out *evid.Out, x *gen.Exec, p *gen.Program, check string, f *e
 						out.Violate("hooks:args", fmt.Sprintf("event %d: hook #%d got (level %d, msg %q), expected (level %d, msg %q)", ei, hl[i].ID, hl[i].Level, hl[i].Msg, ex.Hooks[i].Level, ex.Hooks[i].Msg), rep(ei, nil))
 						break
 					}
+					if hl[i].Ctx != ex.Hooks[i].Ctx {
+						out.Violate("hooks:goctx", fmt.Sprintf("event %d: hook #%d read the Go context value %q through GetCtx, the logger / event was given %q", ei, hl[i].ID, hl[i].Ctx, ex.Hooks[i].Ctx), rep(ei, nil))
+						break
+					}
 					for _, st := range p.Chain {
 						for _, hs := range st.Hooks {
 							if hs.ID == hl[i].ID && hs.Kind == 1 {
